@@ -45,7 +45,8 @@ class Graph:
         self.comps, self.edges = comps, edges
 
     def build(self):
-        data = {n: {'component': Extern('weakref()', (lambda c, o=o: o))} for n, o in self.comps.items()}
+        data = {n: {'component': Extern('weakref()', (lambda c, o=o: o)), 'stageIndex': o.stageIndex, 'level': o.stageIndex,
+                    'rank': o.stageIndex} for n, o in self.comps.items()}
         nodes = Obj('nodes', __getitem__=Extern('graph.nodes.__getitem__', lambda c, n: data[n]),
                     __call__=None)
         # networkx returns a ONE-SHOT iterator (iter over the predecessor dictionary), not a list
@@ -153,6 +154,9 @@ class Schedule(Target):
         this = Obj('controller', comp_lock=threading.RLock(), _start_sleeping=False, _scheduler_sleeps=False,
                    graph=graph, comp_done=done, comp_staged_in=staged, stop_executing=stop, log=NULLLOG,
                    workflowGraph=Obj('wg', _placeholders={}),
+                   # the stage that is executing (asked for only if the code wants to know): the consumer's stage or an
+                   # earlier one -- components of later stages are scheduled as soon as their producers allow
+                   stage=Extern('Controller.stage', lambda c: Obj('stage', index=c.one_of('executing_stage', [1, 0]))),
                    _fake_finish_with_state=Extern('Controller._fake_finish_with_state', fake_finish),
                    finalize_submit_components=Extern('Controller.finalize_submit_components', finalize))
         return State(args=[this, set()], this=this, prods=prods, cons=cons, is_repeat=is_repeat, is_agg=is_agg, cstate=cstate,
